@@ -63,6 +63,8 @@ PROP = [  # (subject fragment, property ids, key that used to be reported)
  ("unused variable left behind by the side-by-side wrapping fix", 'C07', "(follow-up of the fix 8ed6a01: compiler warning only)"),
  ("blame commit hyperlink was padded and cut as if it were part of the hash", 'C09,C19', "c09:malformed:blame / c19:not-transparent:blame (--hyperlinks on a terminal with a width or precision on {commit}; found from two sub-agents' notes)"),
  ("a commit hyperlink could be inserted inside the URL of a hyperlink the line already had", 'C09', "c09:malformed:passthrough (control character inside OSC; the terminal model did not flag an ESC inside an OSC string before)"),
+ ("a file whose name contains '{line}' or '{host}' got a hyperlink to another path", 'C19', "c19:file-target (found from a sub-agent's note)"),
+ ("hunks of a deleted file were not highlighted in the file's language", 'C15', "c15:rename:colouring-depends-on-name (deleted foo.rs vs the same lines removed from foo.rs; found from a sub-agent's note; sub-check added)"),
  ("lines differing by a zero-width character were paired at --max-line-distance 0", 'C06', "c06:distance-0-pairing / :sbs ('<U+0308>key' paired with ' key   ' at distance 0; found by the thorough tier)"),
 ]
 log = subprocess.run(['git', '-C', '/repo', 'log', '--format=%H%x09%s', '--reverse'], stdout=subprocess.PIPE).stdout.decode().splitlines()
